@@ -995,3 +995,104 @@ def ok_strong_field_read_no_analysed_code_between(src):
     print("%s" % n)
     for i in h.items:
         i.width = 1
+
+
+class _Harmless:
+    def __init__(self, holder):
+        self.holder = holder
+        self.count = 0
+
+    def __str__(self):
+        self.count = self.count + 1  # stores, but never to an attribute named `items`
+        return "h"
+
+
+def ok_strong_field_read_dunder_without_store(src):
+    h = Acc3()
+    h.items = [src]
+    r = _Harmless(h)
+    h.items = []
+    str(r)
+    for i in h.items:
+        i.width = 1
+
+
+def _rebind_items(holder, src):
+    holder.items = [src]
+
+
+class _IndirectRebinder:
+    def __init__(self, holder, src):
+        self.holder = holder
+        self.src = src
+
+    def __str__(self):
+        _rebind_items(self.holder, self.src)  # the store is in a function the special method calls
+        return "x"
+
+
+def alarm_strong_field_read_dunder_calls_storing_helper(src):
+    h = Acc3()
+    r = _IndirectRebinder(h, src)
+    h.items = []
+    str(r)
+    for i in h.items:
+        i.width = 1
+
+
+class _SetattrRebinder:
+    def __init__(self, holder, src):
+        self.holder = holder
+        self.src = src
+
+    def __len__(self):
+        setattr(self.holder, "it" + "ems", [self.src])  # computed attribute name
+        return 1
+
+
+def alarm_strong_field_read_dunder_setattr(src):
+    h = Acc3()
+    r = _SetattrRebinder(h, src)
+    h.items = []
+    len(r)
+    for i in h.items:
+        i.width = 1
+
+
+# ---- a copy of an instance of an analysed class is an instance of that class: its methods are the class's ------------------
+class _Mut:
+    def __init__(self):
+        self.kept = []
+
+    def run(self, x):
+        x.width = 1
+
+    def keep(self, x):
+        self.kept.append(x)
+
+
+def alarm_method_on_deepcopied_instance(src):
+    m = deepcopy(_Mut())
+    m.run(src)
+
+
+def alarm_method_on_copied_instance(src):
+    import copy
+
+    m = copy.copy(_Mut())
+    m.run(src)
+
+
+def alarm_shallow_copied_instance_shares_fields(src):
+    import copy
+
+    a = _Mut()
+    b = copy.copy(a)
+    b.keep(src)  # a.kept IS b.kept
+    a.kept[0].width = 1
+
+
+def ok_deepcopied_instance_own_state(src):
+    m = deepcopy(_Mut())
+    m.keep(1)
+    m.count = 2
